@@ -65,7 +65,8 @@ Section ShuffleP.
 
   (* fixed entries of l stay where they are, and no fixed entry appears elsewhere *)
   Definition fixed_kept (l l' : list A) : Prop :=
-    (forall k x, nth_error l k = Some x -> fixed x = true -> nth_error l' k = Some x) /    (forall k y, nth_error l' k = Some y -> fixed y = true -> nth_error l k = Some y).
+    and (forall k x, nth_error l k = Some x -> fixed x = true -> nth_error l' k = Some x)
+        (forall k y, nth_error l' k = Some y -> fixed y = true -> nth_error l k = Some y).
 
   Lemma fixed_kept_refl l : fixed_kept l l.
   Proof. split; auto. Qed.
